@@ -25,6 +25,7 @@ import (
 
 	"github.com/lindb/lindb/models"
 	"github.com/lindb/lindb/pkg/timeutil"
+	"github.com/lindb/lindb/series/metric"
 	"github.com/lindb/lindb/verifharness/sim/node"
 )
 
@@ -179,5 +180,67 @@ func TestSideFinding_EmptyFlushWedgesDictionaryStores(t *testing.T) {
 	after := query("second")
 	if before != after {
 		t.Fatalf("metric written after an empty flush cycle is lost by flush + clean restart\nbefore restart:\n%safter restart:\n%s", before, after)
+	}
+}
+
+// Third side finding (outside C04): metadataDatabase.gc removes a metric store that the write
+// path has just created.
+//
+// tsdb/memdb/metadata_database.go handleFlush runs `mdb.gc(now - 1 day)` in the background after
+// every metadata flush; gc deletes every metric store with `accessTime < now - 1 day`.
+// tsdb/memdb/metric_store.go newMetricStore leaves accessTime = 0 until the first GenField call,
+// and memoryDatabase.WriteRow does GetOrCreateMetricMeta(row) first and GenField per field a
+// few statements later. A gc that runs in between (first row of a metric in this process right
+// after a periodic metadata flush) deletes the new store from the map: the meta worker does not
+// find it (`GetMetricMeta` fails, fields never become Persisted), the following rows create a
+// second store, and the flush of the memory database skips the rows silently
+// ("flush wrote no file": 197 of 200 rows of new metrics lost when the window is widened by a
+// 2 ms sleep after GetOrCreateMetricMeta and 1 ms before gc; seen once in 16 000 cases of
+// TestRollup on the loaded machine before the harness stopped using Database.FlushMeta).
+// The test replays the interleaving at statement granularity: the row's store is created as
+// WriteRow does, then a metadata flush runs, then the store must still be there.
+func TestSideFinding_MetaGCDropsNewMetricStore(t *testing.T) {
+	if os.Getenv("VERIF_SIDE") == "" {
+		t.Skip("side finding outside property C04; set VERIF_SIDE=1 to run")
+	}
+	dir, err := os.MkdirTemp("", "c04side-")
+	if err != nil {
+		t.Fatal(err)
+	}
+	defer os.RemoveAll(dir)
+	n, err := node.Start(dir)
+	if err != nil {
+		t.Fatal(err)
+	}
+	defer n.Close()
+	if err := n.CreateDB(dbName, node.DBOption(timeutil.Interval(10*sec)), models.ShardID(0)); err != nil {
+		t.Fatal(err)
+	}
+	db, _ := n.Engine.GetDatabase(dbName)
+	block, err := node.Block([]*protoMetricsV1.Metric{{
+		Name: "fresh", Timestamp: time.Date(2023, 5, 17, 10, 0, 0, 0, time.UTC).UnixMilli(),
+		Tags:         []*protoMetricsV1.KeyValue{{Key: "host", Value: "a"}},
+		SimpleFields: []*protoMetricsV1.SimpleField{{Name: "f", Type: protoMetricsV1.SimpleFieldType_DELTA_SUM, Value: 1}},
+	}})
+	if err != nil {
+		t.Fatal(err)
+	}
+	rows := metric.NewStorageBatchRows()
+	rows.UnmarshalRows(block)
+	row := rows.Rows()[0]
+	// WriteRow, first statement: the store of the new metric is created
+	if _, isNew := db.MemMetaDB().GetOrCreateMetricMeta(row); !isNew {
+		t.Fatal("harness: store existed")
+	}
+	// the periodic metadata flush (its gc runs in the background after the flush callback)
+	if err := db.FlushMeta(); err != nil {
+		t.Fatal(err)
+	}
+	deadline := time.Now().Add(500 * time.Millisecond)
+	for time.Now().Before(deadline) {
+		if _, ok := db.MemMetaDB().GetMetricMeta(row.NameHash()); !ok {
+			t.Fatalf("the metric store created by the write path was removed by the gc of the metadata flush before its first field was registered")
+		}
+		time.Sleep(5 * time.Millisecond)
 	}
 }
